@@ -545,9 +545,11 @@ static void build(const Args &a, std::vector<Case> &out) {
   auto add = [&](Case c, const std::string &cls) { c.cls = cls; out.push_back(c); };
   if (MODE == "c07") {
     std::string sub = a.str("sub", "all");
-    if (sub == "big") {
+    if (sub == "big" || sub == "big1") {
+      std::vector<const char *> lens = {"536870911", "536870912", "536870913", "536870969"};
+      if (sub == "big1") lens = {"536870912"}; // quick tier: exactly 2^32 bits
       for (int algo = 0; algo < 3; algo++)
-        for (const char *n : {"536870911", "536870912", "536870913", "536870969"}) add(Case().set("g", "big").set("algo", algo).set("len", n), std::string("big:") + AN[algo] + ":" + n);
+        for (const char *n : lens) add(Case().set("g", "big").set("algo", algo).set("len", n), std::string("big:") + AN[algo] + ":" + n);
       return;
     }
     if (sub == "all" || sub == "string")
@@ -634,6 +636,6 @@ int main(int argc, char **argv) {
     std::string how = cr.exitcode == 77 ? "memory-error(ASan)" : cr.timeout ? "hang" : cr.exitcode == 42 ? "deadlock" : "crash";
     return "abnormal-end:" + how + ":" + c.str("g") + "|library call did not return normally (" + describe_death(cr) + ")";
   };
-  sp.alarm_s = (MODE == "c07" && a.str("sub") == "big") ? 1200 : 120;
+  sp.alarm_s = (MODE == "c07" && a.str("sub").rfind("big", 0) == 0) ? 1200 : 120;
   return main_loop(argc, argv, sp);
 }
